@@ -70,6 +70,12 @@ int main(int argc, char **argv) {
             { char *v = strstr(s, "v=19"); memcpy(s2, s, L + 1); s2[v - s + 3] = '6'; str_case("v16", s2, pw, pl, ops, mk); }
             { char *v = strstr(s, "p=1"); memcpy(s2, s, L + 1); s2[v - s + 2] = '2'; str_case("p2_same_hash", s2, pw, pl, ops, mk); s2[v - s + 2] = '0'; str_case("p0", s2, pw, pl, ops, mk); }
             { char *v = strchr(s + 1, '$'); size_t k = (size_t) (v - s); memcpy(s2, s, L + 1); if (type == 2) { memmove(s2 + k - 1, s2 + k, L - k + 1); str_case("id_to_i", s2, pw, pl, ops, mk); } else { memmove(s2 + k + 1, s2 + k, L - k + 1); s2[k] = 'd'; str_case("i_to_id", s2, pw, pl, ops, mk); } }
+            /* decimal fields rewritten to values outside 32 bits: d + 2^32, d + 3*2^32 (wrap to d in a uint32_t), 2^64 + d, 20 nines */
+            { static const char *fld[] = { "v=", "m=", "t=", "p=" };
+              for (int fi = 0; fi < 4; fi++) { char *v = strstr(s, fld[fi]); if (!v) continue; size_t a = (size_t) (v - s) + 2, e = a; while (s[e] >= '0' && s[e] <= '9') e++;
+                  unsigned long long dv = strtoull(s + a, NULL, 10); char num[4][32];
+                  snprintf(num[0], 32, "%llu", dv + 4294967296ULL); snprintf(num[1], 32, "%llu", dv + 3ULL * 4294967296ULL); snprintf(num[2], 32, "1844674407370955%04llu", 1616ULL + dv); snprintf(num[3], 32, "99999999999999999999");
+                  for (int w = 0; w < 4; w++) { if (a + strlen(num[w]) + (L - e) + 1 > sizeof s2) continue; memcpy(s2, s, a); strcpy(s2 + a, num[w]); strcat(s2, s + e); str_case("decimal_out_of_range", s2, pw, pl, ops, mk); } } }
             { char *sl = strchr(s, '/'); if (sl) { memcpy(s2, s, L + 1); s2[sl - s] = (char) 0xff; str_case("slash_to_ff", s2, pw, pl, ops, mk); } }
         }
     }
